@@ -180,6 +180,13 @@ def gen_relations():
     for n in names:
         L.append(f"  | .{idn[n]} => {rank[n]}")
     L.append("")
+    L.append("/-- position of `str(T)` in `sorted(str(t) for t in types)` (Python string order) -/")
+    L.append("def nameRank : Ty → Nat")
+    srt = sorted(names)
+    for n in names:
+        L.append(f"  | .{idn[n]} => {srt.index(n)}")
+    L.append(f"def nameWidth : Nat := {len(names)}")
+    L.append("")
     L.append("end V.Gen")
     return "\n".join(L) + "\n", names, idn, declared
 
